@@ -79,7 +79,7 @@ def setValue (ext : Ext) (P : Prog) (n : Nat) (name : Str) (vals : List Str) : P
   match lookup name (P.node n).opts with
   | none => (P, .notFound)
   | some oid =>
-    match save ext false (P.opt oid) vals with
+    match save ext (P.opt oid).lowerKeys (P.opt oid) vals with
     | .ok o' => (P.setOpt oid o', .ok)
     | .error e => (P, .error e)
 
